@@ -1213,5 +1213,11 @@ theorem src_energy_rate_floor {α : Type} [Field α] [LinearOrder α] [IsStrictO
       sweep.foldl (fun m r => if energy_rate_floor.num r m = some true then r else m) Energy.f64Max := by
   simp [Energy.findMinEnergyRate, energy_rate_floor, Rel.num]
 
+theorem src_phev_battery_left {α : Type} [Field α] [LinearOrder α] [IsStrictOrderedRing α] [Lit α] [LawfulLit α] {K : Type} (sus dep : Energy.PredRecord α) (b : Energy.Battery α)
+    (c : Energy.Caches K α) (s : Energy.VState α) :
+    (Energy.Vehicle.phev sus dep b).cacheInUse c s =
+      if phev_battery_left.num s.soc (zero : α) = some true then c.main else c.sustain := by
+  simp [Energy.Vehicle.cacheInUse, phev_battery_left, Rel.num]
+
 end C08
 end Compass
